@@ -53,6 +53,7 @@ type mState struct {
 	steps      int
 	exitCode   uint64
 	unsupp     string
+	stoppedAt  *instruction
 }
 
 func (s *mState) unsupported(why string) {
@@ -307,14 +308,17 @@ func (s *mState) pop() uint64 {
 
 // run executes function fi from its first instruction until the outermost ret / an exit.
 func (s *mState) run(fi int) int {
+	s.push(mRetDone)
+	return s.runFrom(s.funcs[fi], s.funcs[fi].m.rootInstr)
+}
+
+// runFrom executes from instruction in of function cur until the outermost ret / an exit sequence (s.stoppedAt).
+func (s *mState) runFrom(cur *mFunc, in *instruction) int {
 	type frame struct {
 		f   *mFunc
 		ret *instruction
 	}
 	var frames []frame
-	cur := s.funcs[fi]
-	in := cur.m.rootInstr
-	s.push(mRetDone)
 	for in != nil {
 		s.steps++
 		if s.steps > 3000 || s.unsupp != "" || s.w.Unsupported() != "" {
@@ -625,6 +629,7 @@ func (s *mState) run(fi int) int {
 			}
 		case exitSequence:
 			s.exitCode = uint64(uint32(s.w.LoadExit()))
+			s.stoppedAt = in
 			return mOutTrap
 		case ud2:
 			s.unsupported("ud2 reached")
@@ -875,3 +880,155 @@ func VerifC05_L2_Ops() {
 
 //verif:opts split=part:8
 func VerifC05_L2_Const() { vCompareMachine("T1c", vFamilyPart("T1c", 8)) }
+
+// VerifC08_L2_GoCallTrampoline: the machine code of the guest->host trampoline (the real CompileGoFunctionTrampoline), for
+// signatures with register- and stack-passed parameters of every type: at the exit to Go the []uint64 the host function
+// receives holds exactly the guest's arguments, and after the host wrote its results the trampoline returns exactly those
+// results in the result registers.
+func VerifC08_L2_GoCallTrampoline() {
+	i32t, i64t, f32t, f64t := ssa.TypeI32, ssa.TypeI64, ssa.TypeF32, ssa.TypeF64
+	var ps, rs []ssa.Type
+	switch verifrt.Choose("sig", 6) {
+	case 0:
+		for i := 0; i < 9; i++ {
+			ps = append(ps, i64t)
+		}
+		rs = []ssa.Type{i64t}
+	case 1:
+		for i := 0; i < 9; i++ {
+			ps = append(ps, i32t)
+		}
+		rs = []ssa.Type{i32t}
+	case 2:
+		for i := 0; i < 9; i++ {
+			ps = append(ps, f64t)
+		}
+		rs = []ssa.Type{f64t}
+	case 3:
+		for i := 0; i < 9; i++ {
+			ps = append(ps, f32t)
+		}
+		rs = []ssa.Type{f32t}
+	case 4:
+		for i := 0; i < 3; i++ {
+			ps = append(ps, i64t, f64t, i32t, f32t)
+		}
+		rs = []ssa.Type{i64t, f64t}
+	case 5:
+		ps = []ssa.Type{i32t, i64t}
+		rs = []ssa.Type{i32t, f32t, i64t}
+	}
+	needModCtx := verifrt.Choose("modctx", 2) == 1
+	sig := &ssa.Signature{ID: 1, Params: append([]ssa.Type{i64t, i64t}, ps...), Results: rs}
+	if !needModCtx {
+		sig.Params = append([]ssa.Type{i64t}, ps...)
+	}
+	m := NewBackend().(*machine)
+	backend.NewCompiler(context.Background(), m, ssa.NewBuilder())
+	exitCode := wazevoapi.ExitCodeCallGoModuleFunctionWithIndex(5, false)
+	if !needModCtx {
+		exitCode = wazevoapi.ExitCodeCallGoFunctionWithIndex(5, false)
+	}
+	code := m.CompileGoFunctionTrampoline(exitCode, sig, needModCtx)
+	verifrt.Assert(len(code) > 0, "trampoline compiled")
+	f := &mFunc{m: m, labels: map[label]*instruction{}, abi: m.currentABI}
+	for l := label(0); l < m.nextLabel; l++ {
+		if pos := m.labelPositionPool.Get(int(l)); pos != nil && pos.begin != nil {
+			f.labels[l] = pos.begin
+		}
+	}
+	for in := m.rootInstr; in != nil; in = in.next {
+		if in.kind == nop0 && in.nop0Label() != 0 {
+			f.labels[in.nop0Label()] = in
+		}
+	}
+	bin, _, _, _, _, _, _ := frontend.VProgram("T1", 0)
+	w, _ := frontend.VCompile(bin) // only the context model is used
+	s := &mState{w: w, funcs: nil, stack: map[uint64]mStackEnt{}}
+	s.gpr[ri(rspVReg)] = mStackTop - 4096
+	// arguments per the ABI
+	names := []string{"p0", "p1", "p2", "p3", "p4", "p5", "p6", "p7", "p8", "p9", "p10", "p11"}
+	ctxs := 1
+	if needModCtx {
+		ctxs = 2
+	}
+	vals := make([]uint64, len(ps))
+	for i := range f.abi.Args {
+		a := &f.abi.Args[i]
+		var v uint64
+		switch {
+		case i == 0:
+			v = frontend.VExecCtxBase
+		case i == 1 && needModCtx:
+			v = frontend.VModCtxBase
+		default:
+			v = verifrt.U64(names[i-ctxs])
+			if a.Type == i32t || a.Type == f32t {
+				v = uint64(uint32(v))
+			}
+			vals[i-ctxs] = v
+		}
+		if a.Kind == backend.ABIArgKindReg {
+			if a.Type == f32t || a.Type == f64t {
+				s.xmm[xi(a.Reg)] = [2]uint64{v, 0}
+			} else {
+				s.setReg(a.Reg, v, true)
+			}
+		} else {
+			s.stackStore(s.gpr[ri(rspVReg)]+uint64(a.Offset), 8, v)
+		}
+	}
+	s.push(mRetDone)
+	out := s.runFrom(f, m.rootInstr)
+	if s.unsupp != "" || w.Unsupported() != "" {
+		verifrt.Assert(false, "the machine-level evaluator models every instruction of the trampoline")
+		return
+	}
+	verifrt.Assert(out == mOutTrap && s.exitCode == uint64(exitCode), "the trampoline exits to Go with the call's exit code")
+	if out != mOutTrap {
+		return
+	}
+	slice := s.gpr[ri(rspVReg)] + 8 // above the pushed slice size
+	for k, t := range ps {
+		width := uint64(8)
+		if t == i32t || t == f32t {
+			width = 4
+		}
+		verifrt.Assert(s.stackLoad(slice+8*uint64(k), width) == vals[k], "the host function's stack holds exactly the guest's arguments, in order")
+	}
+	// the host writes its results
+	rnames := []string{"r0", "r1", "r2"}
+	res := make([]uint64, len(rs))
+	for j, t := range rs {
+		res[j] = verifrt.U64(rnames[j])
+		if t == i32t || t == f32t {
+			res[j] = uint64(uint32(res[j]))
+		}
+		s.stackStore(slice+8*uint64(j), 8, res[j])
+	}
+	out = s.runFrom(f, s.stoppedAt.next)
+	if s.unsupp != "" || w.Unsupported() != "" {
+		verifrt.Assert(false, "the machine-level evaluator models every instruction of the trampoline")
+		return
+	}
+	verifrt.Assert(out == mOutReturn, "the trampoline returns to the guest")
+	for j := range f.abi.Rets {
+		r := &f.abi.Rets[j]
+		if r.Kind != backend.ABIArgKindReg {
+			continue
+		}
+		var got uint64
+		switch r.Type {
+		case f32t:
+			got = s.xmm[xi(r.Reg)][0] & 0xffffffff
+		case f64t:
+			got = s.xmm[xi(r.Reg)][0]
+		case i32t:
+			got = uint64(uint32(s.reg(r.Reg)))
+		default:
+			got = s.reg(r.Reg)
+		}
+		verifrt.Assert(got == res[j], "the guest receives exactly the host's results")
+	}
+	verifrt.Cover("trampoline")
+}
